@@ -260,7 +260,7 @@ theorem ndigits_le : ∀ (fuel x w : Nat), 1 ≤ w → x < 10 ^ w → ndigits fu
 
 theorem zfill7_small (i : Nat) (h : i < 10 ^ 7) : zfill7 i = fixedW 7 i := by
   unfold zfill7
-  have := ndigits_le 64 i 7 (by norm_num) h
+  have := ndigits_le i i 7 (by norm_num) h
   rw [max_eq_left this]
 
 theorem fixedW_lt : ∀ (w a b : Nat), a % 10 ^ w < b % 10 ^ w → fixedW w a < fixedW w b := by
